@@ -101,6 +101,9 @@ func (p *c19) build(seed uint64, tier string) []C19Scenario {
 					s.Step = "none"
 					add(s)
 				}
+				if op == "dialandsend" {
+					c19Refusals(base, "", add)
+				}
 				// steps of the dial phase
 				type stepDef struct {
 					label string
@@ -325,6 +328,9 @@ func (p *c19) build(seed uint64, tier string) []C19Scenario {
 						s.Step = pre + "none"
 						add(s)
 					}
+					if op == "dialandsend" {
+						c19Refusals(base, pre, add)
+					}
 					type stepDef struct {
 						label, verb string
 						nth         int
@@ -393,6 +399,49 @@ func (p *c19) build(seed uint64, tier string) []C19Scenario {
 	}
 	p.cache[key] = out
 	return out
+}
+
+// c19Refusals: send errors the Client raises itself, with the connection open and healthy.
+func c19Refusals(base func() C19Scenario, pre string, add func(C19Scenario)) {
+	drop := func(caps []string, what string) []string {
+		var out []string
+		for _, c := range caps {
+			if c != what {
+				out = append(out, c)
+			}
+		}
+		return out
+	}
+	{
+		// an 8bit message for a server that does not announce 8BITMIME
+		s := base()
+		s.Step = pre + "client-refuses:8bit-without-8BITMIME"
+		s.Msgs[0].Enc = "8bit"
+		s.Server.Caps = drop(s.Server.Caps, "8BITMIME")
+		add(s)
+	}
+	{
+		// the same as the second message of a batch
+		s := base()
+		s.Step = pre + "client-refuses:8bit-without-8BITMIME:second-message"
+		m2 := SimpleMsg("m2", "c@dest.example")
+		m2.Enc = "8bit"
+		s.Msgs = append(s.Msgs, m2)
+		s.Server.Caps = drop(s.Server.Caps, "8BITMIME")
+		add(s)
+	}
+	{
+		s := base()
+		s.Step = pre + "client-refuses:no-recipients"
+		s.Msgs[0].To = nil
+		add(s)
+	}
+	{
+		s := base()
+		s.Step = pre + "client-refuses:no-sender"
+		s.Msgs[0].From = ""
+		add(s)
+	}
 }
 
 func (p *c19) Gen(seed uint64, i int, tier string) (any, bool) {
@@ -612,7 +661,7 @@ func (p *c19) Shrink(scAny any) []any {
 
 func (p *c19) Info() PropInfo {
 	return PropInfo{
-		Rule: "enumeration (thorough: eight rounds of it, each with fresh draws for what the enumeration leaves open): {DialWithContext, DialAndSend, a second DialWithContext on a connected Client whose first connection refuses, loses or garbles its QUIT; the caller's context cancelled by another task 0.15..2.5 ms into the call; the n-th SetDeadline on the connection failing} x TLS policy {mandatory, opportunistic, none} x auth type x failing step (greeting, EHLO, EHLO+HELO, STARTTLS missing/refused, TLS handshake failure kinds, post-TLS EHLO, AUTH missing/mechanism missing/bad password/each AUTH step, NOOP, MAIL, each RCPT, DATA, end-of-data, RSET, QUIT) x failure kind {421, 451, 550, 554, disconnect, garbage reply, reply-then-close}, each also combined with a second fault on the clean-up path (QUIT refused / dropped / garbled, RSET refused / dropped; thorough: all pairs, quick: every fifth), and connections made through the fallback port; the same steps through go-mail's own dialers (no WithDialContextFunc): net.Dialer under the three STARTTLS policies, tls.Dialer for implicit TLS (handshake failure kinds, a peer that speaks plain SMTP), WithSSLPort(true) with a failing first dial, and QuickSend; a case is non-trivial when a failure is injected; distinct = distinct (op, policy, auth, step, rule, error class)",
+		Rule: "enumeration (thorough: eight rounds of it, each with fresh draws for what the enumeration leaves open): {DialWithContext, DialAndSend, a second DialWithContext on a connected Client whose first connection refuses, loses or garbles its QUIT; the caller's context cancelled by another task 0.15..2.5 ms into the call; the n-th SetDeadline on the connection failing} x TLS policy {mandatory, opportunistic, none} x auth type x failing step (greeting, EHLO, EHLO+HELO, STARTTLS missing/refused, TLS handshake failure kinds, post-TLS EHLO, AUTH missing/mechanism missing/bad password/each AUTH step, NOOP, MAIL, each RCPT, DATA, end-of-data, RSET, QUIT) x failure kind {421, 451, 550, 554, disconnect, garbage reply, reply-then-close}, each also combined with a second fault on the clean-up path (QUIT refused / dropped / garbled, RSET refused / dropped; thorough: all pairs, quick: every fifth), and connections made through the fallback port; the same steps through go-mail's own dialers (no WithDialContextFunc): net.Dialer under the three STARTTLS policies, tls.Dialer for implicit TLS (handshake failure kinds, a peer that speaks plain SMTP), WithSSLPort(true) with a failing first dial, and QuickSend; a case is non-trivial when a failure is injected; distinct = distinct (op, policy, auth, step, rule, error class); DialAndSend with send errors the Client raises itself on a healthy connection (an 8bit message for a server without 8BITMIME, as first or second message of the batch; a message without recipients; a message without sender)",
 		Assumptions: []string{"the connection handed out by the dial function is the only transport resource; Close on it is what 'closed' means (for TLS-wrapped connections the underlying simulated connection's Close counts)",
 			"calls that never return are not judged here (C17)"},
 		Real:       []string{"github.com/wneessen/go-mail (Client, smtp.Client, all SASL mechanisms)", "net/textproto", "crypto/tls on both ends"},
